@@ -12,4 +12,5 @@ let table = [
   "chain", Chain.accept;
   "qgauge", QGauge.accept;
   "refs", Refs.accept;
+  "execgauge", ExecGauge.accept;
 ]
